@@ -944,6 +944,9 @@ def run_scenario(sc):
             state['kept'].append((len(world.log) - 1, ev, snapshot_payload(ev)))
         if name in ('disconnected', 'connect_fail'):
             world.end_connection()
+        if name == 'ready' and state.get('kept_iters'):
+            for old in state.pop('kept_iters'):                     # ... and finalises it while the next connection is running
+                old.close()
         for call in (react.get('%s#%d' % (name, k)) or []) + (react.get('@%d' % i) or []):
             if call[0] == 'abandon':
                 return call[1]
@@ -960,6 +963,8 @@ def run_scenario(sc):
                     raise _AppAbort()
                 if mech == 'close':
                     it.close()
+                if mech == 'keep':
+                    state.setdefault('kept_iters', []).append(it)      # the application keeps the abandoned iterator alive ...
                 return
 
     def make_iter():
